@@ -13,3 +13,30 @@ global_writer C20 functions.ExprBridge.programCache functions.(*ExprBridge).Comp
 global_writer C20 functions.legacyAggregatorRegistry functions.RegisterLegacyAggregator
 global_writer C20 logger.defaultInstance logger.SetDefault
 @*/
+
+/*@
+// the public entry points hand the caller's row on as it is: a row that fails the schema is dropped and counted, every other
+// row reaches the stream exactly once, and the synchronous answer is the stream's own answer
+func (*Streamsql).Emit
+  props C05 C16 C20
+  modifies *
+  count handed := Emit
+  observe bad := Validate
+  before Validate the-schema-is-asked-about-this-very-row: $arg1 == data
+  before Emit the-row-given-is-what-the-stream-gets: $arg1 == data && (old(s.schemaValidator) == nil || $bad == nil)
+  atreturn a-row-that-passes-the-schema-reaches-the-stream-once: old(s.stream) != nil && (old(s.schemaValidator) == nil || $bad == nil) ==> $handed == 1
+  atreturn a-row-that-fails-the-schema-never-reaches-the-stream: old(s.stream) == nil || (old(s.schemaValidator) != nil && $bad != nil) ==> $handed == 0
+
+func (*Streamsql).EmitSync
+  props C05 C16 C20
+  modifies *
+  count handed := ProcessSync
+  observe bad := Validate
+  observe answer := ProcessSync
+  observe answerErr := ProcessSync#1
+  before Validate the-schema-is-asked-about-this-very-row: $arg1 == data
+  before ProcessSync the-row-given-is-what-the-stream-gets: $arg1 == data && (old(s.schemaValidator) == nil || $bad == nil)
+  atreturn the-streams-answer-is-the-answer: $handed == 1 ==> result0 == $answer && result1 == $answerErr
+  atreturn at-most-one-processing-per-call: $handed <= 1
+@*/
+
